@@ -76,7 +76,9 @@ def gen_case0(r):
     nb = 2 if join else 0
     hdrB = (['k', 'w'] if with_hdr else None) if join else None
     A = [[r.choice(['1', '2', 'k']) for _ in range(na)] for _ in range(r.randint(1, 3))]
-    B = [[r.choice(['1', '2', 'k', 'zz']), 'w%d' % i] for i in range(r.randint(1, 3))] if join else None
+    # (the join table with a header and NO records included: the output header lists its columns all the same, and since fix c71773a -
+    # finding D27 - the null record of LEFT JOIN has one field per join column name; C07_left_join_width)
+    B = [[r.choice(['1', '2', 'k', 'zz']), 'w%d' % i] for i in range(r.choice([0, 0, 1, 2, 3]))] if join else None
     shape = r.random()
     agg = shape < 0.15 and not join
     cx = {'na': na, 'nb': nb, 'hdrA': hdrA, 'hdrB': hdrB, 'agg': agg}
@@ -116,6 +118,8 @@ def gen_case0(r):
         q = 'update a1 = a2' + tail
         return {'q': q, 'qjs': q, 'A': A, 'B': B, 'hdrA': hdrA, 'hdrB': hdrB, 'hq': '(2)', 'kind': 'update'}
     items = [gen_item(r, cx) for _ in range(r.randint(1, 4))]
+    if join and not agg and r.random() < 0.4:
+        items.insert(r.randint(0, len(items)), r.choice([('(6)', 'b.*', 'b.*'), ('(4)', '*', '*'), ('(0 1 1)', 'b2', 'b2')]))
     sel_py = ', '.join(i[1] for i in items)
     sel_js = ', '.join(i[2] for i in items)
     q = 'select %s%s%s' % (pre, sel_py, tail)
@@ -178,11 +182,13 @@ def run(ctx):
             ctx.stat('%s_%s_%s' % (name, c['kind'], 'hdr' if e['header'] is not None else ('perr' if e['perr'] else 'nohdr')))
             if e['header'] is not None:
                 ctx.nontriv((name, c['q'], json.dumps(c['hdrA']), json.dumps(c['hdrB'])))
+            if c['B'] is not None and not c['B'] and ' left ' in c['q'] and e['header'] is not None and isinstance(g, dict) and g.get('nrows'):
+                ctx.stat('%s_left_join_header_only_table_rows' % name)
         ctx.sample_safe(lambda: {'impl': name, 'query': cases[0]['q'] if name == 'py' else cases[0]['qjs'], 'input_header': cases[0]['hdrA'], 'model': exp[0], 'implementation': got[0]})
     ctx.cross_check_vm(550, args, raw, n=60)
     hdrjs.run(ctx, cases[:3000])      # HeaderJs.v (character-level model of the JS derivation) against rbql-js on the same select lists
     ctx.rule = ('select lists of 1-4 items over {aN, a[N], a.name, a["name"], NR/NF, *, a.*, b.*, other expressions with nested brackets and commas inside calls/literals, aliases as/AS, '
-                'aggregates} x {header, no header} x {join 30%} x {DISTINCT, DISTINCT COUNT, TOP, GROUP BY, EXCEPT, UPDATE}; Python and JS renderings of the same item list; '
+                'aggregates} x {header, no header} x {join 30%, join table of 0-3 records: a join table with a header and no records included} x {DISTINCT, DISTINCT COUNT, TOP, GROUP BY, EXCEPT, UPDATE}; Python and JS renderings of the same item list; '
                 'observed: output_column_names and the width of every output row; non-trivial = distinct case with an output header')
 
 
